@@ -180,3 +180,122 @@ Definition ticks (n : nat) : list op := repeat Tick n.
 Definition settled (v : Z) (s : state) : Prop :=
   dirty s = false /\ stopper s = false /\ crashed s = false /\ final s = false /\
   (pc s = PRate \/ pc s = PStop \/ pc s = PWait) /\ file s = Some (v, TFull).
+
+(* ============================================================================================ *)
+(* machine-variable persistence (mpf/core/machine_vars.py)                                      *)
+(*   set_machine_var / configure_machine_var / remove_machine_var / _write_machine_vars_to_disk *)
+(*   and load_machine_vars.  Names are tokens (Z), values are ints or None, times are whole      *)
+(*   seconds (Z); 0 stands for Python's None in expire_secs / timeout.                           *)
+
+Record mvar := mkv { vval : option Z; vpers : bool; vsecs : Z; vtimeout : Z }.
+
+Definition store := list (Z * mvar).
+Definition dentry := (option Z * Z * Z)%type.          (* value, expire, expire_secs *)
+Definition ddisk := list (Z * dentry).
+
+Record vstate := mkvs { vstore : store; vdisk : ddisk; vnow : Z; vwrites : Z }.
+
+Inductive vop :=
+| VSet (n v : Z) (p : bool)           (* set_machine_var(name, value, persist=p)               *)
+| VConf (n : Z) (p : bool) (e : Z)    (* configure_machine_var(name, persist, expire_secs)     *)
+| VRemove (n : Z)                     (* remove_machine_var(name)                              *)
+| VAdv (dt : Z).                      (* the clock advances                                    *)
+
+Fixpoint vlookup {A} (n : Z) (l : list (Z * A)) : option A :=
+  match l with
+  | [] => None
+  | (k, x) :: r => if k =? n then Some x else vlookup n r
+  end.
+
+Fixpoint vupdate (n : Z) (x : mvar) (l : store) : store :=     (* dict assignment keeps the position *)
+  match l with
+  | [] => [(n, x)]
+  | (k, y) :: r => if k =? n then (k, x) :: r else (k, y) :: vupdate n x r
+  end.
+
+Fixpoint vdelete (n : Z) (l : store) : store :=
+  match l with
+  | [] => []
+  | (k, y) :: r => if k =? n then r else (k, y) :: vdelete n r
+  end.
+
+(* what _write_machine_vars_to_disk hands to DataManager.save_all *)
+Definition snapshot (st : store) : ddisk :=
+  map (fun kv => (fst kv, (vval (snd kv), vtimeout (snd kv), vsecs (snd kv))))
+      (filter (fun kv => vpers (snd kv)) st).
+
+Definition write (s : vstate) (st : store) : vstate :=
+  mkvs st (snapshot st) (vnow s) (vwrites s + 1).
+
+Definition timeout_of (e now : Z) : Z := if e =? 0 then 0 else e + now.
+
+Definition vstep (s : vstate) (o : vop) : vstate :=
+  match o with
+  | VConf n p e =>
+      let x := match vlookup n (vstore s) with
+               | Some y => mkv (vval y) p e (timeout_of e (vnow s))
+               | None => mkv None p e (timeout_of e (vnow s))
+               end in
+      mkvs (vupdate n x (vstore s)) (vdisk s) (vnow s) (vwrites s)
+  | VSet n v p =>
+      let '(y, change) := match vlookup n (vstore s) with
+                          | Some y => (y, negb (match vval y with Some w => w =? v | None => false end))
+                          | None => (mkv None p 0 0, true)
+                          end in
+      let x := mkv (Some v) (vpers y) (vsecs y)
+                   (if vsecs y =? 0 then vtimeout y else vnow s + vsecs y) in
+      let st := vupdate n x (vstore s) in
+      if vpers y && (change || negb (vsecs y =? 0)) then write s st
+      else mkvs st (vdisk s) (vnow s) (vwrites s)
+  | VRemove n =>
+      match vlookup n (vstore s) with
+      | Some _ => write s (vdelete n (vstore s))
+      | None => s
+      end
+  | VAdv dt => mkvs (vstore s) (vdisk s) (vnow s + dt) (vwrites s)
+  end.
+
+Definition vrun (s : vstate) (ops : list vop) : vstate := fold_left vstep ops s.
+
+Definition vinit : vstate := mkvs [] [] 1700000000 0.
+
+(* load_machine_vars: entries whose expiry time has passed are skipped *)
+Definition expired (e now : Z) : bool := negb (e =? 0) && (e <? now).
+
+Definition reload (now : Z) (d : ddisk) : list (Z * option Z) :=
+  map (fun kv => (fst kv, fst (fst (snd kv))))
+      (filter (fun kv => negb (expired (snd (fst (snd kv))) now)) d).
+
+Definition synced (s : vstate) : Prop := vdisk s = snapshot (vstore s).
+
+Definition is_conf (o : vop) : bool := match o with VConf _ _ _ => true | _ => false end.
+
+(* ---- observation -------------------------------------------------------------------------- *)
+Definition names : list Z := [1; 2; 3; 4].
+
+Definition oz (o : option Z) : list Z := match o with Some v => [1; v] | None => [0; 0] end.
+
+Definition disk_row (d : ddisk) : list Z :=
+  flat_map (fun n => match vlookup n d with
+                     | Some (v, e, sc) => 1 :: oz v ++ [e; sc]
+                     | None => [0; 0; 0; 0; 0]
+                     end) names.
+
+Definition load_row (l : list (Z * option Z)) : list Z :=
+  flat_map (fun n => match vlookup n l with
+                     | Some v => 1 :: oz v
+                     | None => [0; 0; 0]
+                     end) names.
+
+Fixpoint vtrace (s : vstate) (ops : list vop) : list (list Z) * vstate :=
+  match ops with
+  | [] => ([], s)
+  | o :: r => let s' := vstep s o in
+              let '(t, sf) := vtrace s' r in
+              ((vwrites s' :: disk_row (vdisk s')) :: t, sf)
+  end.
+
+Definition vars_run (i : list vop * Z) : list (list Z) :=
+  let '(ops, dt) := i in
+  let '(t, sf) := vtrace vinit ops in
+  t ++ [load_row (reload (vnow sf + dt) (vdisk sf))].
